@@ -234,3 +234,36 @@ func init() {
 		}
 	})
 }
+
+// errgroup: tasks run to completion at spawn (sequential model of independent tasks).
+func init() {
+	moreRegs = append(moreRegs, func(eng *Engine) {
+		in := eng.intrinsics
+		in["golang.org/x/sync/errgroup.WithContext"] = func(w *Worker, fr *frame, fn *ssa.Function, args []value) value {
+			t := deref(fn.Signature.Results().At(0).Type())
+			cell := new(value)
+			*cell = zero(t)
+			return tuple{cell, args[0]}
+		}
+		in["(*golang.org/x/sync/errgroup.Group).Go"] = func(w *Worker, fr *frame, fn *ssa.Function, args []value) value {
+			w.goSpawns++
+			s := (*(args[0].(*value))).(structure)
+			r := w.call(fr, 0, args[1], nil)
+			if e, ok := r.(iface); ok && e.t != nil {
+				// remember the first error in field 0 (engine-side use of the struct)
+				if _, has := s[0].(iface); !has {
+					w.set(&s[0], e)
+				}
+			}
+			return nil
+		}
+		in["(*golang.org/x/sync/errgroup.Group).Wait"] = func(w *Worker, fr *frame, fn *ssa.Function, args []value) value {
+			s := (*(args[0].(*value))).(structure)
+			if e, ok := s[0].(iface); ok {
+				return e
+			}
+			return iface{}
+		}
+		in["(*golang.org/x/sync/errgroup.Group).SetLimit"] = func(w *Worker, fr *frame, fn *ssa.Function, args []value) value { return nil }
+	})
+}
